@@ -78,11 +78,15 @@ package template
 //@   ensures wf: r.state <= stateError && r.delim <= delimSpaceOrTagEnd && 0 <= n && n <= len(s)
 //@   ensures range: 0 <= n && n <= len(s)
 //@   ensures allws: skipws(s, 0) == len(s) ==> same(r, c) && n == len(s)
-//@   ensures close: skipws(s, 0) < len(s) && s[skipws(s, 0)] == '>' ==> n == skipws(s, 0) + 1 && r.state == ite(isspecial(c.element.name), stateSpecialElementBody, stateText) && r.delim == delimNone && len(r.attr.name) == 0 && len(r.attr.value) == 0 && !r.attr.ambiguousValue && len(r.attr.names) == 0 && isnil(r.err)
-//@   ensures closevoid: skipws(s, 0) < len(s) && s[skipws(s, 0)] == '>' && len(c.element.name) > 0 && isvoid(c.element.name) ==> len(r.element.name) == 0 && len(r.element.names) == 0 && len(r.scriptType) == 0 && len(r.linkRel) == 0
-//@   ensures closekeep: skipws(s, 0) < len(s) && s[skipws(s, 0)] == '>' && !(len(c.element.name) > 0 && isvoid(c.element.name)) ==> same(r.element, c.element) && same(r.scriptType, c.scriptType) && same(r.linkRel, c.linkRel)
+//@   ensures close: SPECIALSAGREE(c) && skipws(s, 0) < len(s) && s[skipws(s, 0)] == '>' ==> n == skipws(s, 0) + 1 && r.state == ite(isspecial(c.element.name), stateSpecialElementBody, stateText) && r.delim == delimNone && len(r.attr.name) == 0 && len(r.attr.value) == 0 && !r.attr.ambiguousValue && len(r.attr.names) == 0 && isnil(r.err)
+//@   ensures closenames: skipws(s, 0) < len(s) && s[skipws(s, 0)] == '>' && r.state != stateError ==> SPECIALSAGREE(c)
+//@   ensures closeerr: skipws(s, 0) < len(s) && s[skipws(s, 0)] == '>' && !SPECIALSAGREE(c) ==> r.state == stateError && !isnil(r.err) && n == len(s)
+//@   ensures closevoid: SPECIALSAGREE(c) && skipws(s, 0) < len(s) && s[skipws(s, 0)] == '>' && len(c.element.name) > 0 && isvoid(c.element.name) ==> len(r.element.name) == 0 && len(r.element.names) == 0 && len(r.scriptType) == 0 && len(r.linkRel) == 0
+//@   ensures closekeep: SPECIALSAGREE(c) && skipws(s, 0) < len(s) && s[skipws(s, 0)] == '>' && !(len(c.element.name) > 0 && isvoid(c.element.name)) ==> same(r.element, c.element) && same(r.scriptType, c.scriptType) && same(r.linkRel, c.linkRel)
 //@   ensures badname: skipws(s, 0) < len(s) && s[skipws(s, 0)] != '>' && attrstop(s, skipws(s, 0)) <= skipws(s, 0) ==> r.state == stateError && !isnil(r.err) && n == len(s)
 //@   ensures attr: skipws(s, 0) < len(s) && s[skipws(s, 0)] != '>' && attrstop(s, skipws(s, 0)) > skipws(s, 0) ==> n == attrstop(s, skipws(s, 0)) && r.state == ite(n == len(s), stateAttrName, stateAfterName) && same(r.element, c.element) && seqeq(r.attr.name, lower(sub(s, skipws(s, 0), n))) && same(r.linkRel, c.linkRel) && r.delim == delimNone && isnil(r.err) && len(r.attr.value) == 0 && !r.attr.ambiguousValue && len(r.attr.names) == 0 && len(r.scriptType) == 0
+//@   loop 1
+//@     invariant forall(k, 0, rangeidx, isspecial(at(c.element.names, k)) && isspecial(c.element.name) ==> seqeq(at(c.element.names, k), c.element.name))
 
 //@ func tAttrName(c context, s []byte) (r context, n int)
 //@   serves C01 C08
@@ -661,6 +665,7 @@ package template
 //@   ensures state: a.state != stateError && b.state != stateError && r.state != stateError ==> (r.state == a.state && r.delim == a.delim) || (r.state == nudgest(a.state) && r.delim == nudgedl(a.state, a.delim))
 //@   ensures ambiguous: a.state != stateError && b.state != stateError && r.state != stateError && !seqeq(a.attr.value, b.attr.value) ==> r.attr.ambiguousValue
 //@   ensures carried: a.state != stateError && b.state != stateError && r.state != stateError && (a.attr.ambiguousValue || b.attr.ambiguousValue) ==> r.attr.ambiguousValue
+//@   ensures onebody: a.state != stateError && b.state != stateError && r.state == stateSpecialElementBody ==> seqeq(a.element.name, b.element.name)
 //@   ensures wfout: WF(a) && WF(b) ==> WF(r)
 //@   ensures errcarries: r.state == stateError ==> !isnil(r.err) || a.state == stateError || b.state == stateError
 //@   ensures scratchonly: onlyfresh("map[seq]bool#dom map[seq]bool#val")
